@@ -27,21 +27,29 @@ CONSTANTS Threads, Progs,        \* Progs: set of candidate program assignments 
           Shared, SetOnAllPaths, ClearOnError, CopyOnConstruct
 
 \* ---- the document pool ----
-DocIds == {"plain", "colA", "colB", "multi", "fig", "fail", "share2", "share3", "paged", "pagedfn", "pagedhdr", "multi13"}
+DocIds == {"plain", "colA", "colB", "multi", "fig", "fail", "share2", "share3", "paged", "pagedfn", "pagedhdr", "multi13",
+           \* a 1x1 table on the shared RTFBody(); two tables sharing RTFBody(col_rel_width=[1]); coloured borders only /
+           \* coloured borders after another colour; a border matrix with the shape of a page; same paper, other margins
+           "share1", "sharew2", "sharew3", "brdA", "brdB", "cyc", "pagedm1", "pagedm2"}
 Pal(dd) == CASE dd = "colA" -> {26, 552} [] dd = "colB" -> {100, 300, 652} [] dd = "multi" -> {26, 100}
-            [] dd = "fig" -> {552} [] dd = "fail" -> {300} [] dd = "paged" -> {26, 552} [] OTHER -> {}
+            [] dd = "fig" -> {552} [] dd = "fail" -> {300} [] dd = "paged" -> {26, 552}
+            [] dd = "brdA" -> {552} [] dd = "brdB" -> {26, 552} [] OTHER -> {}
 Uses(dd) == CASE dd = "colA" -> <<552, 26, 552>> [] dd = "colB" -> <<652, 100, 300>> [] dd = "multi" -> <<100, 26>>
-             [] dd = "fig" -> <<552>> [] dd = "fail" -> <<300>> [] dd = "paged" -> <<26, 552, 26, 552>> [] OTHER -> <<>>
+             [] dd = "fig" -> <<552>> [] dd = "fail" -> <<300>> [] dd = "paged" -> <<26, 552, 26, 552>>
+             [] dd = "brdA" -> <<552, 552>> [] dd = "brdB" -> <<26, 552, 552>> [] OTHER -> <<>>
 Path(dd) == CASE dd \in {"multi", "multi13"} -> "multi" [] dd = "fig" -> "figure" [] OTHER -> "single"
 Fails(dd) == dd = "fail"
-NCols(dd) == CASE dd = "share2" -> 2 [] dd = "share3" -> 3 [] OTHER -> 0
-SharesBody(dd) == dd \in {"share2", "share3"}
+NCols(dd) == CASE dd \in {"share2", "sharew2"} -> 2 [] dd \in {"share3", "sharew3"} -> 3 [] dd = "share1" -> 1 [] OTHER -> 0
+\* two caller-owned RTFBody objects are shared between documents: "b" = RTFBody(), "w" = RTFBody(col_rel_width=[1])
+Fam(dd) == CASE dd \in {"share1", "share2", "share3"} -> "b" [] dd \in {"sharew2", "sharew3"} -> "w" [] OTHER -> "none"
+Fams == {"b", "w"}
+SharesBody(dd) == Fam(dd) # "none"
 
 VARIABLES prog, ctx, pc, h, k, cur, res, body, built
 vars == <<prog, ctx, pc, h, k, cur, res, body, built>>
 \* ctx[slot] = <<isSet, palette>> ; pc[t] in {"idle","set","render","table","clear"} ; h[t] = index of the current op
 \* cur[t] = indices looked up so far by the running encode ; res[t] = results of finished ops
-\* body = col_rel_width length stored in the shared RTFBody (0 = unset) ; built[d] = widths the document d sees
+\* body[f] = col_rel_width length stored in the shared RTFBody of family f (0 = unset) ; built[d] = widths the document d sees
 
 Slot(t) == IF Shared THEN "g" ELSE t
 Slots == IF Shared THEN {"g"} ELSE Threads
@@ -52,16 +60,16 @@ Init == /\ prog \in Progs
         /\ ctx = [s \in Slots |-> <<FALSE, {}>>]
         /\ pc = [t \in Threads |-> "idle"] /\ h = [t \in Threads |-> 1] /\ k = [t \in Threads |-> 1]
         /\ cur = [t \in Threads |-> <<>>] /\ res = [t \in Threads |-> <<>>]
-        /\ body = 0 /\ built = [x \in DocIds |-> 0]
+        /\ body = [f \in Fams |-> 0] /\ built = [x \in DocIds |-> 0]
 
 Op(t) == prog[t][h[t]]
 HasOp(t) == h[t] <= Len(prog[t])
 SetsCtx(dd) == Path(dd) = "single" \/ SetOnAllPaths
 
 \* RTFDocument(...): default col_rel_width is written into the (possibly shared) RTFBody
-BodyAfter(dd) == IF SharesBody(dd) /\ ~CopyOnConstruct /\ body = 0 THEN NCols(dd) ELSE body
+BodyAfter(dd) == IF SharesBody(dd) /\ ~CopyOnConstruct /\ body[Fam(dd)] = 0 THEN [body EXCEPT ![Fam(dd)] = NCols(dd)] ELSE body
 BuiltAfter(dd) == IF SharesBody(dd) /\ ~CopyOnConstruct
-                  THEN [built EXCEPT ![dd] = IF body = 0 THEN NCols(dd) ELSE body]
+                  THEN [built EXCEPT ![dd] = IF body[Fam(dd)] = 0 THEN NCols(dd) ELSE body[Fam(dd)]]
                   ELSE [built EXCEPT ![dd] = NCols(dd)]
 Construct(t) ==
   /\ pc[t] = "idle" /\ HasOp(t) /\ Op(t)[1] = "construct"
